@@ -620,7 +620,7 @@ pub fn run_c05(ctx: &Ctx) -> i32 {
     // set operations: appends of simple inputs followed by projections / derives / exclusions
     ctx.tape_search("append-then-project", ctx.n(3_000, 100_000), 450, |t| gen_case_cfg(t, None, false, true), |c| check(c, &ctx.known, Mode::C05, false));
     for h in HAZ_C05 {
-        ctx.tape_search(&format!("hazard/{h}"), ctx.n(300, 10_000), 450, |t| gen_case(t, Some(h), false), |c| {
+        ctx.tape_search(&format!("hazard/{h}"), if *h == "const_fold" { ctx.n(2_000, 40_000) } else { ctx.n(300, 10_000) }, 450, |t| gen_case(t, Some(h), false), |c| {
             let mut o = check(c, &ctx.known, Mode::C05, true);
             o.nontrivial = false;
             o
